@@ -134,7 +134,15 @@ func genC05(rt *rapid.T) c05Case {
 		r.Path = "/" + strings.Join(segs, "/")
 		if lang.Spread(rt, "odd", 100) < 15 && len(segs) > 0 {
 			r.Odd = true
-			switch lang.Spread(rt, "oddk", 8) {
+			switch lang.Spread(rt, "oddk", 12) {
+			case 8: // an encoded percent sign followed by what looks like another escape: decoded once, it is literal text
+				r.Path += "%2541"
+			case 9:
+				r.Path += "%252Fx"
+			case 10:
+				r.Path += "%25zz"
+			case 11:
+				r.Path += "+plus%2Bsign"
 			case 0:
 				r.Path += "/"
 			case 1:
